@@ -301,6 +301,7 @@ def run(ctx: core.Ctx):
                 ctx.violate(fam, key, what, rp)
     ctx.extra["ground_time_s"] = round(time.time() - t, 2)
     ctx.extra["subset_cases"] = len(jobs)
+    tomo.prep_variants(ctx, "C11", True)
     ctx.trust("oracle tableau simulator", "M7 applied to the readout circuit embedded on the measured qubits", "Q2/Q5/Q6 as in C12")
     ctx.assume("exact statistics; float arithmetic treated as real", "N up to 5 (6 thorough); m=4 and some (N, m) combinations seeded - the marginalisation contract itself is exhaustive for N<=5")
     return core.finish(ctx, "proof", "real fitter executed on symbolic counts over the full N-qubit outcome space; marginalisation contract exhaustive for N<=5",
@@ -308,6 +309,8 @@ def run(ctx: core.Ctx):
 
 
 def replay(data):
+    if "variant" in data.get("input", {}):
+        return tomo.replay_prep_variant(data["input"])
     inp = data["input"]
     if inp.get("mode") == "embed":
         bad = [r for r in embed_job((inp["N"], [tuple(inp["measured_qubits"])], inp["connectivity"])) if r[1] is False]
